@@ -18,6 +18,7 @@ pub enum Act {
     Rx(usize),
     Region(usize),
     Nest(Vec<Act>, bool),
+    Bytes,
     Fail,
 }
 
@@ -27,9 +28,10 @@ struct World {
     receivers: Vec<Option<IpcReceiver<u32>>>, // endpoint e as a receiver (we keep the sender in `kept_tx`)
     regions: Vec<IpcSharedMemory>,
     nested_results: Vec<bool>,
+    bytes: Option<(ipc::IpcBytesSender, ipc::IpcBytesReceiver)>, // a raw-bytes channel for sends issued from inside a serialiser
 }
 thread_local! {
-    static WORLD: RefCell<World> = RefCell::new(World { out: None, senders: vec![], receivers: vec![], regions: vec![], nested_results: vec![] });
+    static WORLD: RefCell<World> = RefCell::new(World { out: None, senders: vec![], receivers: vec![], regions: vec![], nested_results: vec![], bytes: None });
 }
 
 pub struct Script(pub Vec<Act>);
@@ -67,6 +69,18 @@ impl Serialize for Script {
                     }
                     t.serialize_element(&(r.is_ok() as u8))?
                 },
+                Act::Bytes => {
+                    WORLD.with(|w| {
+                        let mut w = w.borrow_mut();
+                        if w.bytes.is_none() {
+                            w.bytes = Some(ipc::bytes_channel().unwrap());
+                        }
+                        let (tx, rx) = w.bytes.as_ref().unwrap();
+                        let _ = tx.send(&[1, 2, 3]);
+                        let _ = rx.try_recv();
+                    });
+                    t.serialize_element(&9u8)?
+                },
                 Act::Fail => return Err(serde::ser::Error::custom("scripted failure")),
             }
         }
@@ -91,6 +105,7 @@ fn parse(s: &str) -> Vec<Act> {
                 ')' => return out,
                 'e' => out.push(Act::Emit),
                 'f' => out.push(Act::Fail),
+                'b' => out.push(Act::Bytes),
                 't' | 'r' | 'g' => {
                     let mut n = 0usize;
                     while *i < cs.len() && cs[*i].is_ascii_digit() {
@@ -191,6 +206,7 @@ pub fn run() {
                 w.senders.clear();
                 w.receivers.clear();
                 w.regions.clear();
+                w.bytes = None;
             });
             drop(out);
             // drain the receiver: every message with its attachments
